@@ -94,6 +94,14 @@ class ChargingBase(VehicleState):
                 f"ChargingBase.enter(): vehicle {vehicle.id} not at same location as {base.id}"
             )
             return None, None
+        elif (
+            vehicle.vehicle_state.vehicle_state_type == VehicleStateType.CHARGE_QUEUEING
+            and getattr(vehicle.vehicle_state, "station_id", None) == station.id
+            and getattr(vehicle.vehicle_state, "charger_id", None) == self.charger_id
+        ):
+            # already waiting in the queue of this very station for this plug type (a driver whose home base is
+            # served by the station he queues at): the plug is granted by the queue, in order of arrival
+            return None, None
         else:
             # actually claim the parking stall
             updated_base = base.checkout_stall()
